@@ -2588,12 +2588,14 @@ CodegenResult codegen_compile(ASTNode *program, Environment *env,
             uint8_t ret_tag = type_to_tag(item->as.function.return_type);
 
             /* Build param type tags */
-            uint8_t param_tags[16] = {0};
-            for (int p = 0; p < pc && p < 16; p++) {
+            /* one tag per parameter: externs may have more than 16 of them */
+            uint8_t *param_tags = calloc(pc > 0 ? pc : 1, 1);
+            for (int p = 0; param_tags && p < pc; p++) {
                 param_tags[p] = type_to_tag(item->as.function.params[p].type);
             }
 
             register_extern(&cg, name, "", pc, ret_tag, param_tags);
+            free(param_tags);
         }
 
         /* Process import statements - load module ASTs and register their contents */
@@ -2704,12 +2706,14 @@ CodegenResult codegen_compile(ASTNode *program, Environment *env,
                         if (extern_find(&cg, ename) < 0) {
                             uint16_t pc = (uint16_t)mitem->as.function.param_count;
                             uint8_t ret_tag = type_to_tag(mitem->as.function.return_type);
-                            uint8_t param_tags[16] = {0};
-                            for (int p = 0; p < pc && p < 16; p++) {
+                            /* one tag per parameter: externs may have more than 16 of them */
+                            uint8_t *param_tags = calloc(pc > 0 ? pc : 1, 1);
+                            for (int p = 0; param_tags && p < pc; p++) {
                                 param_tags[p] = type_to_tag(mitem->as.function.params[p].type);
                             }
                             register_extern(&cg, ename, mod_path ? mod_path : "",
                                            pc, ret_tag, param_tags);
+                            free(param_tags);
                         }
                     }
 
@@ -2807,12 +2811,14 @@ CodegenResult codegen_compile(ASTNode *program, Environment *env,
                         if (fn) {
                             uint16_t pc = (uint16_t)fn->param_count;
                             uint8_t ret_tag = type_to_tag(fn->return_type);
-                            uint8_t param_tags[16] = {0};
-                            for (int p = 0; p < pc && p < 16; p++) {
+                            /* one tag per parameter: externs may have more than 16 of them */
+                            uint8_t *param_tags = calloc(pc > 0 ? pc : 1, 1);
+                            for (int p = 0; param_tags && p < pc; p++) {
                                 param_tags[p] = type_to_tag(fn->params[p].type);
                             }
                             register_extern(&cg, local_name, mod_name ? mod_name : "",
                                            pc, ret_tag, param_tags);
+                            free(param_tags);
                         }
                     }
                 } else {
@@ -2824,12 +2830,14 @@ CodegenResult codegen_compile(ASTNode *program, Environment *env,
                                 fn->name[prefix_len] == '.') {
                                 uint16_t pc = (uint16_t)fn->param_count;
                                 uint8_t ret_tag = type_to_tag(fn->return_type);
-                                uint8_t param_tags[16] = {0};
-                                for (int p = 0; p < pc && p < 16; p++) {
+                                /* one tag per parameter: externs may have more than 16 of them */
+                                uint8_t *param_tags = calloc(pc > 0 ? pc : 1, 1);
+                                for (int p = 0; param_tags && p < pc; p++) {
                                     param_tags[p] = type_to_tag(fn->params[p].type);
                                 }
                                 register_extern(&cg, fn->name, mod_name,
                                                pc, ret_tag, param_tags);
+                                free(param_tags);
                             }
                         }
                     }
@@ -2876,12 +2884,14 @@ CodegenResult codegen_compile(ASTNode *program, Environment *env,
                     if (extern_find(&cg, ename) < 0) {
                         uint16_t pc = (uint16_t)mitem->as.function.param_count;
                         uint8_t ret_tag = type_to_tag(mitem->as.function.return_type);
-                        uint8_t param_tags[16] = {0};
-                        for (int p = 0; p < pc && p < 16; p++) {
+                        /* one tag per parameter: externs may have more than 16 of them */
+                        uint8_t *param_tags = calloc(pc > 0 ? pc : 1, 1);
+                        for (int p = 0; param_tags && p < pc; p++) {
                             param_tags[p] = type_to_tag(mitem->as.function.params[p].type);
                         }
                         register_extern(&cg, ename, modules->module_paths[mi],
                                        pc, ret_tag, param_tags);
+                        free(param_tags);
                     }
                 }
 
